@@ -47,6 +47,7 @@ func runC18(c *core.Ctx) {
 	c.Clause("C18.2c the leader-originated handlers consume exactly the announced payload on every reply path (framing of pipelined requests)")
 	h.handlersDrainPayload("C18.2c payload-drained")
 	h.failedConnNotReused("C18.2e failed-conn-not-reused")
+	h.pipelineRequestsAccounted("C18.2f pipeline-accounting")
 	h.replyRPCDecodes("C18.2d leader-request-decoded")
 	c.Clause("C18.3 admin request bodies and task responses agree branch by branch")
 	h.adminBodies("C18.3 admin")
